@@ -26,8 +26,8 @@ CHECKS = {
             "Storage faults are injected at bbolt's Put/Delete/CreateBucket(IfNotExists)/DeleteBucket entry (pages/fsync are not modelled); Batch is sampled (10 ms per call); single caller.",
             "DESIGN.md §4 C07"),
     "C08": ("model_checking", E1,
-            "base states from explicit-state BFS x transaction programs routed through parent / plain child / extended child store; multiset of delivered events vs reference event list; goroutines joined through the tracked-spawn overlay",
-            "Ten registration styles (typed, function, untyped, id-only, typed and untyped constraint; sync and async) x three change types on five stores record (store, style, type, id, observed state). For every base state and every 1-2 (thorough: 3) operation transaction - committed (also with two succeeding pre-commit actions), rolled back by a caller error, rejected by the model or by a failing pre-commit action (alone or followed by a succeeding one), via Update, Batch and a Batch whose first run fails transiently and whose solo re-run commits - the recorded multiset must equal the reference list derived from the model (one event per committed change with final/last state, one parent event per child change, none for undone work); commit actions and tx-complete listeners exactly once per committed transaction; when an id-only listener runs, a fresh read transaction must already show the state the transaction leaves behind ('after the commit').",
+            "base states from explicit-state BFS x transaction programs routed through parent / plain child / extended child store; multiset of delivered events vs reference event list; goroutines joined through the tracked-spawn overlay; preemption-bounded schedule exploration of a tx-complete listener registered between two transactions",
+            "Ten registration styles (typed, function, untyped, id-only, typed and untyped constraint; sync and async) x three change types on five stores record (store, style, type, id, observed state). For every base state and every 1-2 (thorough: 3) operation transaction - committed (also with two succeeding pre-commit actions), rolled back by a caller error, rejected by the model or by a failing pre-commit action (alone or followed by a succeeding one), via Update, Batch and a Batch whose first run fails transiently and whose solo re-run commits - the recorded multiset must equal the reference list derived from the model (one event per committed change with final/last state, one parent event per child change, none for undone work); commit actions and tx-complete listeners exactly once per committed transaction; when an id-only listener runs, a fresh read transaction must already show the state the transaction leaves behind ('after the commit'). Every registration passes its change types through one shared spread slice with spare capacity. Schedules (bound 2, thorough 3): transaction A yields inside its function, B waits for the writer lock, R registers a tx-complete listener - every transaction whose function began after the registration returned is reported exactly once, none twice.",
             "Events on the extended child store for entities without extended data are not specified and ignored; two concurrent Batch callers are outside the property.",
             "DESIGN.md §4 C08"),
     "C09": ("model_checking", E1,
@@ -86,7 +86,7 @@ CHECKS = {
             "Tiny universes (2-3 ids, 3 names, 3 aliases, 4 role sets); bbolt atomicity trusted; equal masked dumps are merged (same futures).",
             "DESIGN.md §4 C03"),
     "C04": ("model_checking", E1,
-            "explicit-state BFS to closure per foreign-key wiring (7 wirings + self-referential), plain and hostile id strings; reference model comparison of complete image, back-reference reads and error classes",
+            "explicit-state BFS to closure per foreign-key wiring (7 wirings, 3 self-referential ones, 2 whose target is a plain / extended child store of the referring store), plain and hostile id strings; reference model comparison of complete image, back-reference reads and error classes",
             "Every reachable state of each wiring is enumerated to closure; restrict/cascade outcome, surviving entities and back-reference buckets are compared with a reference model on every transition, repeated with ids containing quotes, backslashes, keywords and control characters, and with three referrers where the target is deleted in the same transaction as an earlier change of the referencing store; every refused delete is additionally run through Db.Batch (which re-runs a failed function on its own): same refusal, unchanged database.",
             "2 targets x 2 referrers (3 self-referential entities); cascade over a reference cycle is probed in a child process first (a stack overflow would kill the checker); since fix 0176587 the probe survives and the cycle deletes are executed and compared in-process.",
             "DESIGN.md §4 C04"),
@@ -155,7 +155,7 @@ def main():
         ],
         "checks": checks,
         "not_applicable": na,
-        "notes": "Every check rebuilds the harness against /repo's working tree (run.sh). Known findings and repaired defects: known_findings.json (the known list is empty; 27 fix: commits). Seeded changes: seeded/ (156, all detected at the quick tier); behaviour-preserving refactorings: refactors/ (8, no alarm); self-test: tools/selftest.py -> selftest/results.json.",
+        "notes": "Every check rebuilds the harness against /repo's working tree (run.sh). Known findings and repaired defects: known_findings.json (the known list is empty; 27 fix: commits). Seeded changes: seeded/ (166, all detected at the quick tier); behaviour-preserving refactorings: refactors/ (8, no alarm); self-test: tools/selftest.py -> selftest/results.json.",
     }
     with open(os.path.join(ROOT, "MANIFEST.json"), "w") as f:
         json.dump(m, f, indent=1)
